@@ -25,6 +25,7 @@ func runC02(c *Ctx) {
 	forEachMatcher(c, "R02", func(m *matcherCtx) {
 		forms := map[string]bool{}
 		flagSets := map[string]bool{}
+		checkedBounds := map[*ssa.Function]bool{}
 		for si, s := range m.sites {
 			if s.Ret == nil {
 				continue
@@ -86,6 +87,17 @@ func runC02(c *Ctx) {
 						}
 						flagSets[strings.Join(fs, "+")] = true
 					}
+				}
+				// R02.7: the lookup that credits the reply admits the whole probed range: on its success paths the key is bounded
+				// by MinTTL and MaxTTL inclusively (a strict bound drops the genuine reply to the first / last probe)
+				for _, l := range findLookups(c.P, m.d, pi.Atoms) {
+					site, ok := l.Call.Val.(*ssa.Call)
+					if !ok || site.Common().StaticCallee() == nil || checkedBounds[site.Common().StaticCallee()] {
+						continue
+					}
+					L := site.Common().StaticCallee()
+					checkedBounds[L] = true
+					checkInclusiveBounds(c, m.d, L)
 				}
 				// R02.2 deny-list
 				for _, a := range pi.Atoms {
@@ -179,6 +191,7 @@ func runC02(c *Ctx) {
 		checkSendOrderAs(c, d, "R02.6", false)
 	}
 	checkSackRelative(c)
+	checkListeningBudget(c)
 	checkQuoteHelpers(c)
 }
 
@@ -281,6 +294,116 @@ func checkSackRelative(c *Ctx) {
 		}
 	}
 	R.Floor("R02.5:ordered-comparisons", n, 1)
+}
+
+// checkInclusiveBounds is R02.7 for one lookup accessor L.
+func checkInclusiveBounds(c *Ctx, d Driver, L *ssa.Function) {
+	R := c.R
+	fn := core.FuncName(L)
+	res := L.Signature.Results()
+	errIdx := -1
+	for i := 0; i < res.Len(); i++ {
+		if isErrorType(res.At(i).Type()) {
+			errIdx = i
+		}
+	}
+	if errIdx < 0 {
+		return
+	}
+	n := 0
+	for _, ip := range InlinedPaths(c.P, L, inlineOpts{pkg: core.FuncPkg(L), stop: hasLoop}) {
+		if !ip.Results[errIdx].IsConst("nil") {
+			continue
+		}
+		for _, a := range ip.Atoms {
+			nn := a.Norm()
+			t := nn.Cond
+			if t.Op != "binop" || len(t.Args) != 2 {
+				continue
+			}
+			// orient as  key REL bound  with bound = <..>.MinTTL / <..>.MaxTTL
+			x, y, op := t.Args[0], t.Args[1], t.Name
+			isBound := func(z *core.Term) string {
+				s := z.StripConv().String()
+				switch {
+				case strings.HasSuffix(s, ".MinTTL"):
+					return "MinTTL"
+				case strings.HasSuffix(s, ".MaxTTL"):
+					return "MaxTTL"
+				}
+				return ""
+			}
+			flip := map[string]string{"<": ">", ">": "<", "<=": ">=", ">=": "<="}
+			b := isBound(y)
+			if b == "" {
+				if b = isBound(x); b == "" {
+					continue
+				}
+				x, y = y, x
+				if f, ok := flip[op]; ok {
+					op = f
+				}
+			}
+			if !x.StripConv().Has(func(z *core.Term) bool { return z.Op == "param" }) {
+				continue
+			}
+			if !nn.Sign {
+				neg := map[string]string{"<": ">=", ">": "<=", "<=": ">", ">=": "<"}
+				o2, ok := neg[op]
+				if !ok {
+					continue
+				}
+				op = o2
+			}
+			n++
+			key := fmt.Sprintf("%s#bound[%s]", fn, b)
+			switch {
+			case b == "MaxTTL" && op == "<":
+				R.FailPath("R02.7", key, L.Pos(), fn, "the lookup succeeds only for keys strictly below MaxTTL: the genuine reply to the probe with TTL = MaxTTL (the last hop of a long path; every end-to-end probe, whose only TTL is MaxTTL) is rejected and its hop is missing", ip.Desc)
+			case b == "MinTTL" && op == ">":
+				R.FailPath("R02.7", key, L.Pos(), fn, "the lookup succeeds only for keys strictly above MinTTL: the genuine reply to the first probe is rejected and its hop is missing", ip.Desc)
+			default:
+				R.OK("R02.7", key, L.Pos(), fn, "success path admits key "+op+" "+b)
+			}
+		}
+	}
+	_ = n
+}
+
+// checkListeningBudget is R02.4b: the parallel engine listens for TracerouteTimeout plus one SendDelay per probe – the budget
+// method returns exactly that sum in time.Duration arithmetic (a unit conversion on the way shrinks or inflates the window).
+func checkListeningBudget(c *Ctx) {
+	R := c.R
+	f := c.P.Func("(common.TracerouteParallelParams).MaxTimeout")
+	if f == nil {
+		R.Fail("R02.4", "common.MaxTimeout#anchor", 0, "", "anchor (common.TracerouteParallelParams).MaxTimeout no longer resolves")
+		return
+	}
+	fn := core.FuncName(f)
+	// the probe-count helper stays a call: only the shape of the sum is judged here (the count itself is C19 R19.2 / R06.5)
+	for _, ip := range InlinedPaths(c.P, f, inlineOpts{pkg: core.FuncPkg(f), stop: func(*ssa.Function) bool { return true }}) {
+		r := ip.Results[0]
+		ok := false
+		if r.Op == "binop" && r.Name == "+" {
+			for k := 0; k < 2; k++ {
+				to, prod := r.Args[k], r.Args[1-k]
+				if !strings.HasSuffix(to.String(), ".TracerouteTimeout") || prod.Op != "binop" || prod.Name != "*" {
+					continue
+				}
+				for j := 0; j < 2; j++ {
+					d, cnt := prod.Args[j], prod.Args[1-j]
+					if strings.HasSuffix(d.String(), ".SendDelay") && cnt.Op == "conv" && strings.Contains(cnt.String(), "ProbeCount") || strings.HasSuffix(d.String(), ".SendDelay") && strings.Contains(cnt.String(), ".MaxTTL") && !cnt.Has(func(z *core.Term) bool { return z.Op == "call" && strings.HasPrefix(z.Name, "(time.Duration).") }) {
+						ok = !d.Has(func(z *core.Term) bool { return z.Op == "call" })
+					}
+				}
+			}
+		}
+		if ok {
+			R.OK("R02.4", fn+"#budget", f.Pos(), fn, "listening budget = TracerouteTimeout + SendDelay * probe count, in time.Duration arithmetic")
+		} else {
+			R.FailPath("R02.4", fn+"#budget", f.Pos(), fn, "the listening budget is "+r.String()+", not TracerouteTimeout + SendDelay * (number of probes) in time.Duration arithmetic: probes sent late lose their listening window (or are never sent)", ip.Desc)
+		}
+	}
 }
 
 // sliceHoldsRawEdges: the slice S handed to an ordering call in f is filled with raw SACK edges (anyRaw); why is empty when a loop
